@@ -114,7 +114,7 @@ theorem hlocVisit_node (key : List (Sel α)) (ls : List α) (cs : List (Level α
   cases hk : key.getD dep Sel.all with
   | all =>
     simp only [Sel.toLKey, nodeIndex, Index.locToIlocP, Index.locMap, Option.isSome_none, Bool.false_eq_true,
-      false_and, if_false, Index.mapSliceArgs, Index.mapSliceArg, Except.map, IKey.positions,
+      false_and, if_false, Index.mapSliceArgs, Index.mapSliceArg, Index.mapSliceStop, Except.map, IKey.positions,
       slice_positions_all, Sel.idxs, hl]
   | label a =>
     simp only [Sel.toLKey, nodeIndex, Index.locToIlocP, Index.locMap, Sel.idxs]
